@@ -41,6 +41,7 @@ func mcastDirect(seed uint64, tier string, args []string, w *bufio.Writer) {
 		return
 	}
 	mcastRetainedAddresses(w)
+	mcastAddressOwnership(w)
 	self, err := os.Executable()
 	if err != nil {
 		fmt.Fprintf(w, "DIRECT-STAT {\"mcast_multihome\": \"skipped: %v\"}\n", err)
@@ -175,6 +176,75 @@ func mcastMultihome(w *bufio.Writer) {
 		}
 	}
 	fmt.Fprintf(w, "DIRECT-STAT {\"mcast_multihome\": \"ran\", \"mcast_multihome_trials\": %d, \"mcast_multihome_failures\": %d}\n", trials, fails)
+}
+
+// mcastAddressOwnership (loopback only): a datagram sent to a packet connection's address completes a read of THAT connection,
+// also when the application (by mistake, or another component of the program) asks for a second packet connection on the same
+// address while the first has a read in flight — whether the library refuses the second one (the kernel's EADDRINUSE) or not.
+func mcastAddressOwnership(w *bufio.Writer) {
+	fails, trials := 0, 0
+	fail := func(format string, a ...any) {
+		fails++
+		fmt.Fprintf(w, "DIRECT-FAIL key=mcast.not-delivered %s\n", fmt.Sprintf(format, a...))
+	}
+	ioc, err := sonic.NewIO()
+	if err != nil {
+		return
+	}
+	defer ioc.Close()
+	sender, err := net.ListenUDP("udp4", &net.UDPAddr{IP: net.IPv4(127, 0, 0, 1)})
+	if err != nil {
+		return
+	}
+	defer sender.Close()
+	for _, variant := range []string{"same address", "wildcard first", "wildcard second"} {
+		trials++
+		firstAddr := "127.0.0.1:0"
+		if variant == "wildcard first" {
+			firstAddr = ":0"
+		}
+		a, err := sonic.NewPacketConn(ioc, "udp", firstAddr)
+		if err != nil {
+			continue
+		}
+		port := a.LocalAddr().(*net.UDPAddr).Port
+		if port == 0 {
+			if sa, err := syscall.Getsockname(a.RawFd()); err == nil {
+				if in4, ok := sa.(*syscall.SockaddrInet4); ok {
+					port = in4.Port
+				}
+			}
+		}
+		got, gotN := 0, 0
+		buf := make([]byte, 32)
+		a.AsyncReadFrom(buf, func(err error, n int, _ net.Addr) {
+			if err == nil {
+				got++
+				gotN = n
+			}
+		})
+		secondAddr := fmt.Sprintf("127.0.0.1:%d", port)
+		if variant == "wildcard second" {
+			secondAddr = fmt.Sprintf(":%d", port)
+		}
+		b, berr := sonic.NewPacketConn(ioc, "udp", secondAddr)
+		if berr == nil {
+			bbuf := make([]byte, 32)
+			b.AsyncReadFrom(bbuf, func(error, int, net.Addr) {})
+		}
+		_, _ = sender.WriteToUDP([]byte("datagram-for-a"), &net.UDPAddr{IP: net.IPv4(127, 0, 0, 1), Port: port})
+		for i := 0; i < 60 && got == 0; i++ {
+			_ = ioc.RunOneFor(5 * time.Millisecond)
+		}
+		if got != 1 || gotN != len("datagram-for-a") {
+			fail("%s: a datagram sent to 127.0.0.1:%d completed %d reads of the packet connection bound there (a second NewPacketConn(%q) on that port returned err=%v)", variant, port, got, secondAddr, berr)
+		}
+		if b != nil && berr == nil {
+			_ = b.Close()
+		}
+		_ = a.Close()
+	}
+	fmt.Fprintf(w, "DIRECT-STAT {\"mcast_address_ownership_trials\": %d, \"mcast_address_ownership_failures\": %d}\n", trials, fails)
 }
 
 // mcastRetainedAddresses (loopback only): what a read reported about its datagram stays true after later reads. Several
